@@ -582,8 +582,8 @@ class ProcCheck(Check):
             "evaluations": c.get("histories", 0),
             "distinct_nontrivial": c.get("nontrivial_histories", 0),
             "exhaustive": True,
-            "exhaustive_scope": "all histories over the per-tick alphabet (subsets of worker deaths x {-, HUP, INT, TERM, "
-                                "file, HUP+file}) up to the depth bounds in 'rule', for max_fails in {-1,0,1,2,3}; "
+            "exhaustive_scope": "all histories over the per-tick alphabet (subsets of worker deaths x 9 signal/file options, see "
+                                "'rule') up to the depth bounds, for max_fails in {-1,0,1,2,3} and both world modes; "
                                 "extensions of a history after start() returned are pruned (they are equivalent); "
                                 "random long histories are additional and not exhaustive",
             "batches": merged["evals"],
@@ -601,10 +601,13 @@ RULE = ("Real ProcessManager.__init__/start() with the names Process, Queue, Eve
         "on a live process nobody terminated is reported as blocking forever; os.kill raises ProcessLookupError for "
         "reaped pids; signal handlers captured and invoked from the fake sleep tick; file change = real "
         "schedule_workers_reload). Exhaustive: every history over the per-tick alphabet (any subset of workers dies) x "
-        "{-, SIGHUP, SIGINT, SIGTERM, file change, SIGHUP+file change} for (workers, depth) in quick {(1,5),(2,4)} / "
-        "thorough {(1,7),(2,5),(3,4)} and every max_fails in {-1,0,1,2,3}; plus random histories of 50-300 ticks with "
-        "1-3 workers. Evaluations = histories executed; non-trivial = the played part contains >=1 death or signal; "
-        "histories are distinct by construction. ")
+        "{-, SIGHUP, SIGINT, SIGTERM, file change, SIGHUP+file change, SIGINT twice, SIGTERM then SIGHUP, SIGHUP then "
+        "SIGINT} for (workers, depth) in quick {(1,5),(2,4)} / thorough {(1,7),(2,5),(3,4)}, every max_fails in "
+        "{-1,0,1,2,3}, and two world modes: synchronous action queue with instantly exiting workers, and lagged queue "
+        "(what the manager enqueues while processing becomes visible one tick later, as with multiprocessing.Queue's "
+        "feeder thread) with workers that need 8 s to exit after SIGTERM; plus random histories of 50-300 ticks with "
+        "1-3 workers in random modes. Evaluations = histories executed; non-trivial = the played part contains >=1 "
+        "death or signal; histories are distinct by construction. Thorough tier adds 10 real-process runs under strace. ")
 
 
 class C17(ProcCheck):
@@ -632,8 +635,9 @@ class C18(ProcCheck):
     which = "C18"
     rule = RULE + ("Oracle C18: return value -1 => max_fails>=1 and the manager had been told (is_alive() False) of "
                    ">= max_fails distinct dead workers; conversely once it has been told of max_fails deaths by the end "
-                   "of tick t it exits during tick t+1; never -1 when max_fails<1; in a tick where a reload-all is "
-                   "handled every slot is restarted exactly once and the budget is unaffected; on SIGINT/SIGTERM it "
+                   "of tick t it exits during tick t+1; never -1 when max_fails<1; a slot is never restarted twice within "
+                   "one tick and every reload-all request restarts every slot within that tick or the next, without "
+                   "touching the budget; on SIGINT/SIGTERM it "
                    "returns None in that tick after sending SIGINT exactly once to every live current worker, to no "
                    "other pid, and starts nothing afterwards.")
     floors = {"counters.histories": 20000, "events.kill": 5000, "counters.returned_-1": 1000, "counters.returned_None": 5000,
